@@ -58,6 +58,24 @@ func init() {
 			u := &probe.Unit{ID: idOf(i), Cfg: conf, Files: gen.Split(r, conf, i%4), Ops: ops}
 			units = append(units, u)
 		}
+		// a decorator of the configuration's own package whose name is spelled like a variable the generated code uses while it
+		// registers services (`s`): at the point where decorators are registered it must still denote the user's function
+		// (the names that ARE shadowed there today are C02's known finding)
+		{
+			su, tw, lb := shadowUnits()
+			var du []*probe.Unit
+			var dt []*cfg.Config
+			var dl []string
+			for k := range su {
+				if lb[k] == "decorator:s" {
+					du, dt, dl = append(du, su[k]), append(dt, tw[k]), append(dl, lb[k])
+				}
+			}
+			if err := runUnits(c, lab, du, false); err != nil {
+				return err
+			}
+			judgeShadowUnits(c, du, dt, dl)
+		}
 		return behaviourUnits(c, lab, units, func(conf *cfg.Config) bool {
 			tagged := map[string]bool{}
 			for _, s := range conf.Services {
